@@ -83,6 +83,6 @@ func TestC03(t *testing.T) {
 		return
 	}
 	maxLen := pickTier(25, 40)
-	c03Sub.rapidCheck(t, pickTier(10000, 30000), func(rt *rapid.T) hCase { return genHistory(rt, maxLen, true) })
+	c03Sub.rapidCheck(t, pickTier(10000, 100000), func(rt *rapid.T) hCase { return genHistory(rt, maxLen, true) })
 	_ = fmt.Sprint
 }
